@@ -29,15 +29,29 @@ def rating_block(repo):
     return pt, blocks[0]
 
 
-def rate_key(blk, consts, host_key_type, cert, size, ca_type, ca_size, on_eval=None):
-    """(failure comments, warning comments) the probe attaches to a host key of that type and size."""
+def rate_key(blk, consts, host_key_type, cert, size, ca_type, ca_size, on_eval=None, repo=None):
+    """(failure comments, warning comments) the probe attaches to a host key of that type and size.  The rating block is interpreted with
+    sa/listinterp.py; helper methods of HostKeyTest it calls (threshold tables factored into a function) are interpreted in place."""
+    from sa.listinterp import Interp
+    from sa.core import call_name
     env = dict(consts)
     env.update({'cert': cert, 'host_key_type': host_key_type, 'hostkey_modulus_size': size, 'ca_key_type': ca_type, 'ca_modulus_size': ca_size, 'key_fail_comments': [], 'key_warn_comments': []})
+
+    def resolver(call):
+        nm = call_name(call) or ''
+        if repo is not None and nm.startswith(('HostKeyTest.', 'cls.', 'self.')) and repo.has_func('hostkeytest', 'HostKeyTest.' + nm.split('.', 1)[1]):
+            return repo.func('hostkeytest', 'HostKeyTest.' + nm.split('.', 1)[1])
+        return None
     try:
-        track_block([blk], env, TRACKED, on_eval=on_eval)
+        finals = Interp(resolver=resolver).run([blk], env)
     except Unknown as e:
         raise AnalysisError('rating block not interpretable: %s' % e)
-    return list(env['key_fail_comments']), list(env['key_warn_comments'])
+    if on_eval:
+        on_eval()
+    if len(finals) != 1 or finals[0].get('<forks>'):
+        raise AnalysisError('rating block: outcome depends on a condition the analysis does not model: %s' % [f.get('<forks>') for f in finals][:2])
+    fe = finals[0]
+    return list(fe['key_fail_comments']), list(fe['key_warn_comments'])
 
 
 def loop_carried_into_table(repo):
